@@ -217,7 +217,7 @@ fn describe(core: &Core, id: usize) -> Value {
     }
 }
 
-fn exec_op(bars: &BTreeMap<i64, ProgressBar>, mp: &Option<MultiProgress>, mine: &mut BTreeMap<i64, Vec<ProgressBar>>, op: &Value) {
+fn exec_op(bars: &BTreeMap<i64, ProgressBar>, mp: &Option<MultiProgress>, mine: &mut BTreeMap<i64, Vec<ProgressBar>>, op: &Value, spy: &Spy) {
     let b = op.get("b").and_then(|x| x.as_i64()).unwrap_or(1);
     let name = op["op"].as_str().unwrap_or("");
     let pb = mine.get(&b).and_then(|v| v.first()).cloned();
@@ -239,6 +239,7 @@ fn exec_op(bars: &BTreeMap<i64, ProgressBar>, mp: &Option<MultiProgress>, mine: 
         "enable_fast" => pb.unwrap().enable_steady_tick(Duration::from_nanos(1)),      // every iteration of the ticker takes longer than its interval
         "disable" => pb.unwrap().disable_steady_tick(),
         "is_finished" => { let _ = pb.unwrap().is_finished(); }
+        "show" => pb.unwrap().set_draw_target(ProgressDrawTarget::term_like(Box::new(spy.clone()))),      // a bar born hidden gets a terminal
         "clone_drop" => { let c = pb.unwrap().clone(); drop(c); }
         "drop" => { drop(pb); mine.remove(&b); }
         "mp_println" => { let _ = mp.as_ref().unwrap().println("P"); }
@@ -374,7 +375,7 @@ pub fn run_program(prog: &Value, out: &mut dyn Write) {
                 let name = op["op"].as_str().unwrap_or("").to_string();
                 { let mut core = s2.core.lock().unwrap(); core.calls.insert(tid, name.clone()); let b = op.get("b").and_then(|x| x.as_i64()).unwrap_or(1);
                   core.log.push(json!({"t": tid, "k": "CallBegin", "o": name, "id": b, "arg": 0, "call": name})); }
-                let r = std::panic::catch_unwind(std::panic::AssertUnwindSafe(|| if lin { exec_lin(&s2, &spyc, &mpc, &mine, op) } else { exec_op(&barsc, &mpc, &mut mine, op) }));
+                let r = std::panic::catch_unwind(std::panic::AssertUnwindSafe(|| if lin { exec_lin(&s2, &spyc, &mpc, &mine, op) } else { exec_op(&barsc, &mpc, &mut mine, op, &spyc) }));
                 { let mut core = s2.core.lock().unwrap(); let b = op.get("b").and_then(|x| x.as_i64()).unwrap_or(1);
                   core.log.push(json!({"t": tid, "k": if r.is_ok() { "CallEnd" } else { "CallPanic" }, "o": name, "id": b, "arg": 0, "call": name})); core.calls.insert(tid, String::new()); }
             }
@@ -532,6 +533,7 @@ pub fn run_program(prog: &Value, out: &mut dyn Write) {
     rec.insert("spinners".into(), json!(spinners));
     rec.insert("tticks".into(), json!(tticks));
     rec.insert("spincheck".into(), json!(prog["spincheck"].as_bool().unwrap_or(false)));
+    rec.insert("spinle".into(), json!(prog["setup"]["hidden"].as_bool().unwrap_or(false)));      // the bar starts hidden: ticker ticks before it is shown paint nothing
     rec.insert("panic".into(), json!(""));
     if !rec.contains_key("blocked") { rec.insert("blocked".into(), json!([])); }
     writeln!(out, "{}", Value::Object(rec)).unwrap();
